@@ -388,7 +388,13 @@ func c16Verifier(r *Run, t *tape.Tape) {
 		variant = "random-length"
 	case 7:
 		offered = append([]byte{}, good...)
-		offered[t.Choose(len(offered), "c16.flip.pos")] ^= 1 << uint(t.Choose(8, "c16.flip.bit"))
+		if t.Bool(1, 3, "c16.flip.top") {
+			// the most significant octet of a half: on P-521 seven of its bits
+			// lie beyond the group order's width
+			offered[[]int{0, size}[t.Choose(2, "c16.flip.half")]] ^= 1 << uint(1+t.Choose(7, "c16.flip.topbit"))
+		} else {
+			offered[t.Choose(len(offered), "c16.flip.pos")] ^= 1 << uint(t.Choose(8, "c16.flip.bit"))
+		}
 		variant = "bitflip"
 	case 9:
 		// exact length, one half (or both) all zero: r = 0 or s = 0 is never valid
